@@ -1,6 +1,6 @@
 /* C19 — the library's verdict on a file (independent of programs/).
  *
- *   c19_lib classify <file> <outprefix>
+ *   c19_lib classify <file> <outprefix> [<dictionary file>]
  *       Walks the file frame by frame with ZSTD_decompressStream (window limit = the
  *       library default = the CLI default).  One line per item:
  *          K <consumed> <produced>      frame decodes; payload written to <outprefix>.<k>
@@ -41,9 +41,11 @@ static void spill(const char* prefix, int k, const void* p, size_t n)
     fclose(f);
 }
 
-static int classify(const char* fn, const char* prefix)
+static int classify(const char* fn, const char* prefix, const char* dictfn)
 {
     size_t size;
+    size_t dictSize = 0;
+    const void* dict = dictfn ? slurp(dictfn, &dictSize) : NULL;
     const unsigned char* src = (const unsigned char*)slurp(fn, &size);
     size_t pos = 0;
     int k = 0;
@@ -63,6 +65,7 @@ static int classify(const char* fn, const char* prefix)
             int bad = 0, done = 0;
             used = 0;
             ZSTD_DCtx_reset(dctx, ZSTD_reset_session_only);
+            if (dict) ZSTD_DCtx_loadDictionary(dctx, dict, dictSize);
             while (!done) {
                 ZSTD_outBuffer out = { ob, obSize, 0 };
                 size_t const r = ZSTD_decompressStream(dctx, &out, &in);
@@ -87,7 +90,10 @@ static int classify(const char* fn, const char* prefix)
             printf("ONESHOT err too-large-for-harness\n");
         } else {
             void* dst = malloc((size_t)bound + 1);
-            size_t const r = ZSTD_decompress(dst, (size_t)bound, src, size);
+            ZSTD_DCtx* const d1 = ZSTD_createDCtx();
+            size_t const r = dict ? ZSTD_decompress_usingDict(d1, dst, (size_t)bound, src, size, dict, dictSize)
+                                  : ZSTD_decompress(dst, (size_t)bound, src, size);
+            ZSTD_freeDCtx(d1);
             if (ZSTD_isError(r)) printf("ONESHOT err %s\n", ZSTD_getErrorName(r));
             else { printf("ONESHOT ok %zu\n", r); spill(prefix, 9999, dst, r); }
             free(dst);
@@ -118,7 +124,8 @@ static int compress(const char* in, const char* outfn, int level, int checksum)
 
 int main(int argc, char** argv)
 {
-    if (argc == 4 && !strcmp(argv[1], "classify")) return classify(argv[2], argv[3]);
+    if (argc == 4 && !strcmp(argv[1], "classify")) return classify(argv[2], argv[3], NULL);
+    if (argc == 5 && !strcmp(argv[1], "classify")) return classify(argv[2], argv[3], argv[4]);
     if (argc == 6 && !strcmp(argv[1], "compress")) return compress(argv[2], argv[3], atoi(argv[4]), atoi(argv[5]));
     fprintf(stderr, "usage\n");
     return 2;
